@@ -84,7 +84,7 @@ class Chooser:
 
 class VLoop(base_events.BaseEventLoop):
     def __init__(self, chooser: Chooser, horizon: float = 25.0, window: float = 2.0, max_targets: int = 6,
-                 busy: bool = True, max_iters: int = 60000, spin_collapse: int = 2):
+                 busy: bool = True, max_iters: int = 60000, spin_collapse: int = 2, busy_timers: int = 0):
         super().__init__()
         self._vtime = 0.0
         self._clock_resolution = 1e-9
@@ -94,6 +94,7 @@ class VLoop(base_events.BaseEventLoop):
         self.window = window
         self.max_targets = max_targets
         self.busy_choices = busy
+        self.busy_timers = busy_timers  # timer targets offered at busy boundaries ('slow callbacks')
         self.max_iters = max_iters
         self.spin_collapse = spin_collapse
         self.envwaits: list[tuple[str, object, bool]] = []  # (label, future, stallable)
@@ -158,6 +159,23 @@ class VLoop(base_events.BaseEventLoop):
         return self.chooser.choose(kind, n, info)
 
     # ---- the one hook ----------------------------------------------------------------------------
+    def _busy_timer_targets(self):
+        out, last = [], None
+        for h in sorted(self._scheduled, key=lambda h: h._when):
+            if h._cancelled or h in self.harness_timers:
+                continue
+            if h._when > self._vtime + self.window or h._when > self.horizon:
+                break
+            if last is not None and h._when - last < 1e-6:
+                out[-1] = h
+                last = h._when
+                continue
+            if len(out) >= self.busy_timers:
+                break
+            out.append(h)
+            last = h._when
+        return out
+
     def _live_envwaits(self):
         self.envwaits = [w for w in self.envwaits if not w[1].done()]
         return self.envwaits
@@ -220,7 +238,7 @@ class VLoop(base_events.BaseEventLoop):
             ews = self._live_envwaits()
             if timeout == 0:
                 # busy boundary: default 0 = nothing arrives; k>=1 = environment wait k-1 completes now
-                if not ews or mt is not None or self.stalled or not self.busy_choices:
+                if (not ews and not self.busy_timers) or mt is not None or self.stalled or not self.busy_choices:
                     return
                 if self.spin_collapse:
                     # busy points with a ready-queue signature already seen spin_collapse times since the last
@@ -234,8 +252,19 @@ class VLoop(base_events.BaseEventLoop):
                     if n >= self.spin_collapse:
                         self.collapsed += 1
                         return
-                c = self.chooser.choose('busy', 1 + len(ews), None)
+                tts = self._busy_timer_targets() if self.busy_timers else []
+                c = self.chooser.choose('busy', 1 + len(ews) + len(tts), None)
                 if c == 0:
+                    return
+                if c > len(ews):
+                    # "slow callbacks": the burst took long enough for this timer to become due -- it fires in this very iteration,
+                    # queued behind the callbacks that are already ready (exactly what _run_once does with due timers)
+                    h = tts[c - 1 - len(ews)]
+                    self.sched_trace.append(('timer-busy', round(h._when, 4)))
+                    if h._when > self._vtime:
+                        self._vtime = h._when
+                        self._epoch += 1
+                    self._last_sig = None
                     return
                 label, fut, _ = ews[c - 1]
                 self.sched_trace.append(('fire-busy', label))
